@@ -1,6 +1,7 @@
 package sim
 
 import (
+	"os"
 	"fmt"
 	"sort"
 	"strings"
@@ -325,6 +326,9 @@ func (w *World) schedulerLoop() {
 			w.overrun = true
 		}
 		idx := w.choose(len(w.parked), labels)
+		if debugDecisions {
+			fmt.Fprintf(os.Stderr, "DEC %d t=%s pick=%d of %q\n", len(w.decisions)-1, fmtT(w.Now()), idx, labels)
+		}
 		op := w.parked[idx]
 		w.parked = append(w.parked[:idx], w.parked[idx+1:]...)
 		rel := release{}
@@ -473,6 +477,12 @@ func (w *World) SignalFinal(i int) {
 // sequences on the engine's maps and counters can be interleaved by the seed. Only
 // the first incarnation takes part: after a process death its goroutines run
 // unobserved, and a goroutine cannot tell which incarnation it belongs to.
+// Policy.YieldAllGens (never generated, kept for experiments) books the operation on
+// the incarnation alive at its arrival instead. That was tried and is NOT sound: a
+// death releases all goroutines of the dead process at once, they race with each
+// other on their own in-memory state (truly in parallel), and which of them arrives
+// at which scheduling point then depends on the Go scheduler (determinism self-test:
+// 20 of 24 000 crash runs diverged in their decision lists). See DESIGN section 13.
 func (w *World) Yield(where string) {
 	if !w.Spec.Policy.Yields {
 		return
@@ -480,10 +490,10 @@ func (w *World) Yield(where string) {
 	w.mu.Lock()
 	g := w.gen
 	w.mu.Unlock()
-	if g != 0 {
+	if g != 0 && !w.Spec.Policy.YieldAllGens {
 		return
 	}
-	w.Park(0, "y: "+where)
+	w.Park(g, "y: "+where)
 }
 
 // DetselPerm is installed as the hook the rewritten non-blocking selects call:
@@ -507,5 +517,7 @@ func (w *World) DetselPerm(n int) []int {
 	}
 	return perm
 }
+
+var debugDecisions = os.Getenv("SIM_DECLOG") != ""
 
 func fmtT(ns int64) string { return fmt.Sprintf("%.3fs", float64(ns)/1e9) }
